@@ -58,6 +58,8 @@ type Exec struct {
 	curPkg *types.Package
 	useLemmas []string
 	refHeaps map[string]bool
+	nextBefore string
+	elemRange map[string]string
 }
 
 type toolLimit struct{ msg string }
@@ -243,8 +245,11 @@ func (x *Exec) oblige(st *State, kind, label string, props []string, goal, where
 		o.Path = st.trace[:len(st.trace):len(st.trace)]
 	}
 	x.obls = append(x.obls, o)
-	// after checking, the fact may be assumed on this path
-	st.assume(goal)
+	// after checking, the fact may be assumed on this path (quantified facts are not
+	// added: they only make later queries harder)
+	if !strings.Contains(goal, "(forall ") && !strings.Contains(goal, "(exists ") {
+		st.assume(goal)
+	}
 }
 
 // safety obligation (panic site). Labelled by kind + source line ordinal.
@@ -337,7 +342,9 @@ func (x *Exec) heap(st *State, name, sort string) string {
 func (x *Exec) birthAxiom(base, term, sort, bound string) string {
 	switch {
 	case sort == "(Array Int Slice)":
-		return fmt.Sprintf("(forall ((r Int)) (! (< (s_arr (select %s r)) %s) :pattern ((select %s r))))", term, bound, term)
+		return fmt.Sprintf("(forall ((r Int)) (! (and (< (s_arr (select %s r)) %s) (<= 0 (s_off (select %s r))) (<= 0 (s_len (select %s r))) (<= (s_len (select %s r)) (s_cap (select %s r)))) :pattern ((select %s r))))", term, bound, term, term, term, term, term)
+	case sort == "(Array Int (Array Int Int))" && x.elemRange[base] != "":
+		return fmt.Sprintf("(forall ((a Int) (i Int)) (! (and (<= 0 (select (select %s a) i)) (<= (select (select %s a) i) %s)) :pattern ((select (select %s a) i))))", term, term, x.elemRange[base], term)
 	case sort == "(Array Int Int)" && x.refHeaps[base]:
 		return fmt.Sprintf("(forall ((r Int)) (! (< (select %s r) %s) :pattern ((select %s r))))", term, bound, term)
 	}
@@ -381,7 +388,14 @@ func (x *Exec) fieldHeapName(obj types.Type, field int) (string, string) {
 
 func (x *Exec) elemHeapName(elem types.Type) (string, string) {
 	es := x.Sorts.SortOf(elem)
-	return "E_" + sanitize(elemKey(elem)), fmt.Sprintf("(Array Int (Array Int %s))", es)
+	name := "E_" + sanitize(elemKey(elem))
+	if w, signed, ok := intInfo(elem); ok && !signed && w < 64 && !isBVType(elem, x.Mode) {
+		if x.elemRange == nil {
+			x.elemRange = map[string]string{}
+		}
+		x.elemRange[name] = intLit((1 << uint(w)) - 1)
+	}
+	return name, fmt.Sprintf("(Array Int (Array Int %s))", es)
 }
 
 func elemKey(t types.Type) string {
@@ -687,6 +701,11 @@ func (x *Exec) VerifyFunc(fn *ssa.Function, fc *FuncContract, name string) (obls
 	// requires + invariants
 	env := x.envFor(st, x.entry, fr)
 	if fc != nil {
+		if len(fc.GhostInit) > 0 {
+			x.applyGhostList(st, env, fc.GhostInit)
+			x.entry = st.snapshot()
+			env = x.envFor(st, x.entry, fr)
+		}
 		for _, lm := range fc.Uses {
 			x.assumeLemma(st, lm)
 		}
@@ -893,16 +912,31 @@ func (x *Exec) gotoBlock(st *State, b *ssa.BasicBlock) bool {
 				open = true
 			}
 		}
+		if len(x.loopClauses(fr, l)) == 0 {
+			// no invariant: unroll while control flow stays concretely decidable
+			key := fmt.Sprintf("!unroll:%p:%d", fr, l.Ordinal)
+			n := 0
+			fmt.Sscanf(st.heaps[key], "%d", &n)
+			n++
+			st.heaps[key] = fmt.Sprint(n)
+			if n > 24 {
+				x.limit("loop %d of %s has no invariant and does not terminate concretely within 24 iterations", l.Ordinal, x.P.FuncName(fr.Fn))
+			}
+			fr.Prev, fr.Block, fr.Idx = fr.Block, b, 0
+			return true
+		}
 		if open {
 			// back edge: invariant preserved
 			fr.Prev, fr.Block, fr.Idx = fr.Block, b, 0
 			x.checkLoopInv(st, fr, l, "preserved")
+			x.checkLoopVariant(st, fr, l)
 			return false
 		}
 		fr.Prev, fr.Block, fr.Idx = fr.Block, b, 0
 		x.checkLoopInv(st, fr, l, "entry")
 		x.havocLoop(st, fr, l)
 		x.assumeLoopInv(st, fr, l)
+		x.recordLoopVariant(st, fr, l)
 		fr.Open = append(fr.Open, l)
 		return true
 	}
@@ -938,7 +972,29 @@ func (x *Exec) contractFor(fn *ssa.Function) *FuncContract {
 	return nil
 }
 
+func (x *Exec) loopFrame(st *State, fr *Frame, l *Loop, assume bool, phase string) {
+	if fr.Fn != x.fn || x.fc == nil || !x.fc.HasMod {
+		return
+	}
+	ws := x.Eff.LoopWrites(fr.Fn, l)
+	env := x.envFor(st, x.entry, fr)
+	for k, v := range x.entryParams {
+		if _, ok := env.vars[k]; !ok {
+			env.vars[k] = v
+		}
+	}
+	names, goals := x.frameGoals(st, env, x.fc, ws.Classes)
+	for _, hn := range names {
+		if assume {
+			st.assume(goals[hn])
+		} else {
+			x.oblige(st, fmt.Sprintf("loop%d/%s", l.Ordinal, phase), "frame_"+hn, x.fc.Props, goals[hn], x.fc.Where, "loop keeps the declared frame of "+hn)
+		}
+	}
+}
+
 func (x *Exec) checkLoopInv(st *State, fr *Frame, l *Loop, phase string) {
+	x.loopFrame(st, fr, l, false, phase)
 	env := x.envFor(st, x.entry, fr)
 	for i, cl := range x.loopClauses(fr, l) {
 		label := cl.Label
@@ -950,7 +1006,39 @@ func (x *Exec) checkLoopInv(st *State, fr *Frame, l *Loop, phase string) {
 	}
 }
 
+func (x *Exec) recordLoopVariant(st *State, fr *Frame, l *Loop) {
+	fc := x.contractOfFrame(fr)
+	if fc == nil || fc.LoopVar == nil {
+		return
+	}
+	env := x.envFor(st, x.entry, fr)
+	for i, cl := range fc.LoopVar[l.Ordinal] {
+		v := x.eval(env, cl.Expr)
+		st.heaps[fmt.Sprintf("!variant:%d:%d", l.Ordinal, i)] = x.term(v)
+	}
+}
+
+func (x *Exec) checkLoopVariant(st *State, fr *Frame, l *Loop) {
+	fc := x.contractOfFrame(fr)
+	if fc == nil || fc.LoopVar == nil {
+		return
+	}
+	env := x.envFor(st, x.entry, fr)
+	for i, cl := range fc.LoopVar[l.Ordinal] {
+		head := st.heaps[fmt.Sprintf("!variant:%d:%d", l.Ordinal, i)]
+		now := x.term(x.eval(env, cl.Expr))
+		var g string
+		if cl.Kind == "increases" {
+			g = app(">", now, head)
+		} else {
+			g = and(app("<", now, head), app(">=", head, "0"))
+		}
+		x.oblige(st, fmt.Sprintf("loop%d/progress", l.Ordinal), cl.Kind, cl.Props, g, cl.Where, cl.Kind+" "+cl.Src)
+	}
+}
+
 func (x *Exec) assumeLoopInv(st *State, fr *Frame, l *Loop) {
+	x.loopFrame(st, fr, l, true, "")
 	env := x.envFor(st, x.entry, fr)
 	for _, cl := range x.loopClauses(fr, l) {
 		st.assume(x.evalBool(env, cl.Expr))
@@ -1141,6 +1229,7 @@ func (x *Exec) atReturn(st *State, res []*Value, ins *ssa.Return) {
 			x.oblige(st, "global", gi.Label, gi.Props, g, gi.Where, gi.Src)
 		}
 	}
+	x.frameObligations(st, env, fc)
 	// vacuity canary: this return must be reachable under the assumptions
 	o := &Obligation{Name: x.fname + "/vacuity", Func: x.fname, Kind: "vacuity", Props: fc.Props, Goal: "false", Where: x.P.Pos(instrPos(ins)), Src: "reachability of return", ExpectSat: true, Mode: x.Mode}
 	o.Items = st.items[:len(st.items):len(st.items)]
@@ -1163,3 +1252,170 @@ func (x *Exec) assumeGlobalInvs(st *State) {
 func mathFloat64bits(f float64) uint64 { return float64bits(f) }
 
 var _ = token.NoPos
+
+// frameObligations: semantic check of a declared `modifies` clause. For every
+// heap changed on this path, everything outside the declared items must be
+// unchanged for the objects / arrays / maps that existed at entry.
+func (x *Exec) frameObligations(st *State, env *Env, fc *FuncContract) {
+	names, goals := x.frameGoals(st, env, fc, nil)
+	for _, hn := range names {
+		x.oblige(st, "frame", hn, fc.Props, goals[hn], fc.Where, "only the declared locations of "+hn+" are modified")
+	}
+}
+
+// frameGoals builds, per heap, the statement "outside the declared modifies items
+// nothing that existed at entry has changed". If only != nil, goals are built for
+// exactly those heaps (used for loops), else for every heap changed on this path.
+func (x *Exec) frameGoals(st *State, env *Env, fc *FuncContract, only map[string]bool) ([]string, map[string]string) {
+	goals := map[string]string{}
+	if fc == nil || !fc.HasMod {
+		return nil, goals
+	}
+	entry := x.entry
+	oldEnv := *env
+	oldEnv.inOld = true
+	whole := map[string]bool{}       // heaps declared at class level
+	objs := map[string][]string{}     // field heap -> allowed object refs (entry values)
+	keys := map[string][]string{}     // element/map heap -> allowed array/map refs (entry values)
+	ranges := map[string][][3]string{} // element heap -> (arr, lo, hi) allowed index ranges
+	addContents := func(t types.Type, v string) {
+		switch u := t.Underlying().(type) {
+		case *types.Slice:
+			hn, _ := x.elemHeapName(u.Elem())
+			keys[hn] = append(keys[hn], app("s_arr", v))
+		case *types.Map:
+			dn, vn, _, _ := x.mapHeapNames(u)
+			keys[dn] = append(keys[dn], v)
+			keys[vn] = append(keys[vn], v)
+		}
+	}
+	for _, m := range fc.Modifies {
+		switch e := m.Expr.(type) {
+		case *CSel:
+			if id, ok := e.X.(*CIdent); ok {
+				if id.Name == "g" || id.Name == "ext" {
+					continue
+				}
+				if _, bound := env.vars[id.Name]; !bound && x.lookupLocal(env, id.Name) == nil {
+					if tn := x.lookupTypeName(env, id.Name); tn != nil {
+						if stt, ok := structOf(tn); ok {
+							if i := fieldIndex(stt, e.Name); i >= 0 {
+								hn, _ := x.fieldHeapName(tn, i)
+								whole[hn] = true
+								switch u := stt.Field(i).Type().Underlying().(type) {
+								case *types.Slice:
+									en, _ := x.elemHeapName(u.Elem())
+									whole[en] = true
+								case *types.Map:
+									dn, vn, _, _ := x.mapHeapNames(u)
+									whole[dn], whole[vn] = true, true
+								}
+							}
+						}
+						continue
+					}
+				}
+			}
+			base := x.eval(&oldEnv, e.X)
+			bt := base.Typ
+			if pt, ok := bt.Underlying().(*types.Pointer); ok {
+				bt = pt.Elem()
+			}
+			stt, ok := structOf(bt)
+			if !ok {
+				continue
+			}
+			if i := fieldIndex(stt, e.Name); i >= 0 {
+				hn, hs := x.fieldHeapName(bt, i)
+				objs[hn] = append(objs[hn], x.refTerm(base))
+				addContents(stt.Field(i).Type(), app("select", x.heapIn(entry, hn, hs), x.refTerm(base)))
+			}
+		case *CIndex, *CSlice:
+			var sx, lo, hi CExpr
+			switch ee := e.(type) {
+			case *CIndex:
+				sx = ee.X
+				if id, ok := ee.I.(*CIdent); !ok || id.Name != "all" {
+					lo, hi = ee.I, &CBin{"+", ee.I, &CLit{"int", "1"}}
+				}
+			case *CSlice:
+				sx, lo, hi = ee.X, ee.Lo, ee.Hi
+			}
+			sv := x.eval(&oldEnv, sx)
+			sl, ok := sv.Typ.Underlying().(*types.Slice)
+			if !ok {
+				continue
+			}
+			hn, _ := x.elemHeapName(sl.Elem())
+			arr, off, ln, _ := x.sliceParts(x.term(sv))
+			lot, hit := "0", ln
+			if lo != nil {
+				lot = x.term(x.eval(&oldEnv, lo))
+			}
+			if hi != nil {
+				hit = x.term(x.eval(&oldEnv, hi))
+			}
+			ranges[hn] = append(ranges[hn], [3]string{arr, addT(off, lot), addT(off, hit)})
+		case *CIdent:
+			whole[e.Name] = true
+		}
+	}
+	var names []string
+	for n := range st.heaps {
+		if strings.HasPrefix(n, "!") {
+			continue
+		}
+		if only != nil && !only[n] {
+			continue
+		}
+		names = append(names, n)
+	}
+	sort.Strings(names)
+	var outNames []string
+	for _, hn := range names {
+		cur := st.heaps[hn]
+		if cur == hn || whole[hn] {
+			continue // unchanged (still the entry constant) or declared at class level
+		}
+		sortS := st.hsort[hn]
+		ent := x.heapIn(entry, hn, sortS)
+		var goal string
+		switch {
+		case strings.HasPrefix(hn, "H_"):
+			var ex []string
+			for _, o := range objs[hn] {
+				ex = append(ex, not(eq("r", o)))
+			}
+			goal = fmt.Sprintf("(forall ((r Int)) (=> %s (= (select %s r) (select %s r))))", and(append([]string{app("<", "r", x.alloc0())}, ex...)...), cur, ent)
+		case strings.HasPrefix(hn, "E_"), strings.HasPrefix(hn, "MD_"), strings.HasPrefix(hn, "MV_"):
+			var ex []string
+			for _, k := range keys[hn] {
+				ex = append(ex, not(eq("a", k)))
+			}
+			if rs := ranges[hn]; len(rs) > 0 {
+				// arrays with declared index ranges: unchanged outside the ranges
+				var conj []string
+				for _, r := range rs {
+					ex = append(ex, not(eq("a", r[0])))
+				}
+				for _, r := range rs {
+					var inside []string
+					for _, r2 := range rs {
+						inside = append(inside, and(eq(r[0], r2[0]), app("<=", r2[1], "i"), app("<", "i", r2[2])))
+					}
+					conj = append(conj, fmt.Sprintf("(forall ((i Int)) (=> (not %s) (= (select (select %s %s) i) (select (select %s %s) i))))", or(inside...), cur, r[0], ent, r[0]))
+				}
+				goal = and(append(conj, fmt.Sprintf("(forall ((a Int)) (=> %s (= (select %s a) (select %s a))))", and(append([]string{app("<", "a", x.alloc0())}, ex...)...), cur, ent))...)
+			} else {
+				goal = fmt.Sprintf("(forall ((a Int)) (=> %s (= (select %s a) (select %s a))))", and(append([]string{app("<", "a", x.alloc0())}, ex...)...), cur, ent)
+			}
+		case strings.HasPrefix(hn, "G_"):
+			goal = eq(cur, ent)
+		default:
+			continue
+		}
+		goals[hn] = goal
+		outNames = append(outNames, hn)
+	}
+	return outNames, goals
+}
